@@ -304,21 +304,23 @@ void add_type(Node *node) {
       error_tok(node->cas_old->tok, "pointer expected");
     if (node->cas_addr->ty->base->size > 8)
       error_tok(node->cas_addr->tok, "atomic operations on objects larger than 8 bytes are not supported");
+    if (!is_numeric(node->cas_addr->ty->base) && !node->cas_addr->ty->base->base)
+      error_tok(node->cas_addr->tok, "atomic operations on aggregates are not supported");
 
     // The desired value is converted to the type of the object.
-    if (is_numeric(node->cas_addr->ty->base) || node->cas_addr->ty->base->base)
-      node->cas_new = new_cast(node->cas_new, node->cas_addr->ty->base);
+    node->cas_new = new_cast(node->cas_new, node->cas_addr->ty->base);
     return;
   case ND_EXCH:
     if (node->lhs->ty->kind != TY_PTR)
       error_tok(node->lhs->tok, "pointer expected");
     if (node->lhs->ty->base->size > 8)
       error_tok(node->lhs->tok, "atomic operations on objects larger than 8 bytes are not supported");
+    if (!is_numeric(node->lhs->ty->base) && !node->lhs->ty->base->base)
+      error_tok(node->lhs->tok, "atomic operations on aggregates are not supported");
     node->ty = node->lhs->ty->base;
 
     // The desired value is converted to the type of the object.
-    if (is_numeric(node->ty) || node->ty->base)
-      node->rhs = new_cast(node->rhs, node->ty);
+    node->rhs = new_cast(node->rhs, node->ty);
     return;
   }
 }
